@@ -21,7 +21,7 @@ import featlib
 from featlib import Check, walk, render, is_call, rel
 from lafem_roles import (Unknown, strip_targs, defile, strip, Locals, perspective, objkey, accessor, const_value,
                          assertions, counting_loop, is_zero, flatten_if_chain, stmts, live_must_pass)
-from norm_c04 import fuse_while, fold_continue, loop_form, decision_leaves, partitions, pattern_label, alias_value, EMPTY, NONEMPTY
+from norm_c04 import scalar_guard, array_units, fuse_while, fold_continue, loop_form, decision_leaves, partitions, pattern_label, alias_value, EMPTY, NONEMPTY
 
 LAFEM = featlib.repo_path("kernel/lafem/")
 
@@ -418,6 +418,8 @@ def analyse_mapfold(ck, fn, struct, blocked):
         main = [(q, s_, e_) for q, (s_, e_) in enumerate(lv) if "size" in e_]
         fin = [(q, s_, e_) for q, (s_, e_) in enumerate(lv) if "size" not in e_]
         if not main:
+            if not lv and kind == "map":
+                return {"updates": [], "line": (ret[0].get("l") if ret else fn.line), "final": None, "accs": accs, "late": late_init, "ret": ret}     # nothing is written
             raise Unknown("no statement inside a loop over [0,size)")
         # several updates (one loop with several statements, or several loops in sequence) compose element by element: every
         # update touches element i (and j) of its arrays only - that is what ctx.assign establishes
@@ -430,6 +432,12 @@ def analyse_mapfold(ck, fn, struct, blocked):
             ctx.i, ctx.j = env["size"], env.get("block")
             tgt, new = ctx.assign(s_)
             updates.append((tgt, new, s_.get("l"), env["size"]))
+        if len(updates) > 1 and any(s_.get("k") == "Decl" and any(v.get("init") is not None and v["d"] not in written_locals and
+                                    any(y.get("k") == "Index" or (y.get("k") == "Un" and y.get("op") == "*") for y in walk(v["init"])) for v in s_["vars"])
+                                    for s_ in walk({"k": "Block", "s": rest}) if isinstance(s_, dict)):
+            # a named temporary holds the value an array element had when it was declared; with several updates the rule would
+            # have to order declaration and updates - not modelled
+            raise Unknown("several updates together with a local that snapshots an array element")
         if kind != "map" and len({u[3] for u in updates}) > 1:
             # separate reduction loops add up only if each of them purely accumulates
             for tgt, new, ln, _ in updates:
@@ -451,6 +459,9 @@ def analyse_mapfold(ck, fn, struct, blocked):
         rep = {x: blk[0] for blk in pat for x in blk}
         sub = {sympy.Symbol(n): sympy.Symbol(rep.get(n, n)) for n in arrays}
         state = {}
+        if not info["updates"] and kind == "map":
+            rsym = _S["r"].subs(sub, simultaneous=True)
+            return rsym, rsym                 # identity: r keeps its value
         for tgt, new, _, _ in info["updates"]:
             t = tgt.subs(sub, simultaneous=True)
             e = new.subs(sub, simultaneous=True)
@@ -488,18 +499,24 @@ def analyse_mapfold(ck, fn, struct, blocked):
         return kind == "map"
 
     selected = {}       # pattern label -> (leaf index, pattern)
+    guarded = []        # (pattern label, pattern, leaf index, [(guard, polarity, condition node)]): leaves chosen by tests of the scalar arguments
     used = set()
     pats = partitions(arrays)
+    scalars = {p["d"]: p["n"] for p in fn.params if p["d"] not in ctx.ptr and p["n"] != "size"}
     for pat in pats:
         label = pattern_label(pat)
         cands, trouble = [], None
         for k, (lits, sts) in enumerate(leaves):
-            vals = []
+            vals, guards = [], []
             for c, pol in lits:
                 v = alias_value(c, ctx.loc, ptr_params, pat)
                 if v is None:
-                    trouble = "branch condition `%s` (line %s) is not a test of the aliasing of the array parameters" % (render(c)[:60], c.get("l"))
-                    break
+                    g = scalar_guard(c, ctx.loc, scalars)
+                    if g is None:
+                        trouble = "branch condition `%s` (line %s) is neither a test of the aliasing of the array parameters nor of the scalar arguments" % (render(c)[:60], c.get("l"))
+                        break
+                    guards.append((g, pol, c))
+                    continue
                 if v in (True, False):
                     v = (v == pol)
                 else:
@@ -515,14 +532,31 @@ def analyse_mapfold(ck, fn, struct, blocked):
                     break
                 used.add(k)
                 continue
-            cands.append(k)
+            cands.append((k, guards))
+        if trouble is None and len(cands) > 1:
+            # several leaves execute under this aliasing, told apart by tests of the scalar arguments (alpha == 0, |alpha| < tol ...):
+            # the leaf for generic scalar values is the main one, every other must agree with the definition under its test
+            def point(gs):
+                return any((g[0] == "eq") == pol for g, pol, _ in gs if g[0] in ("eq", "ne"))
+            generic = [c_ for c_ in cands if not point(c_[1])]
+            if len(generic) > 1:
+                with_loop = [c_ for c_ in generic if any(x.get("k") in ("For", "While") for x in leaves[c_[0]][1])]
+                generic = with_loop if len(with_loop) == 1 else generic
+            if len(generic) != 1 or kind != "map":
+                trouble = "%d leaves of the body execute under the aliasing pattern %s and the tests of the scalar arguments do not single out one for generic values" % (len(cands), label)
+            else:
+                for c_ in cands:
+                    if c_ is not generic[0]:
+                        guarded.append((label, pat, c_[0], c_[1]))
+                        used.add(c_[0])
+                cands = generic
         if trouble is None and len(cands) != 1:
             trouble = "%d leaves of the body execute under the aliasing pattern %s" % (len(cands), label)
         if trouble:
             ck.incomplete("E2.kernel-loop", "%s/%s [%s]: %s" % (key0, label, inst, trouble))
             continue
-        selected[label] = (cands[0], pat)
-        used.add(cands[0])
+        selected[label] = (cands[0][0], pat)
+        used.add(cands[0][0])
     for k in range(len(leaves)):
         if k not in used and len(selected) == len(pats):
             ck.note("%s [%s]: the branch under `%s` is unreachable for every aliasing pattern (an earlier test covers it)" % (
@@ -620,6 +654,42 @@ def analyse_mapfold(ck, fn, struct, blocked):
                   inst, label, g_tgt, g_new, sympy.expand(gs), tgt_p, sympy.expand(new_p), "" if ok else "  -- NOT EQUAL"),
               file, info["line"], sample={"instantiation": inst, "condition": label, "general": str(sympy.expand(gs)), "specialised": str(sympy.expand(new_p))},
               trivial=(k == gk))
+    # leaves selected by a test of the scalar arguments: what they compute must be what the definition gives under that test
+    scal_syms = {sympy.Symbol(n) for n in scalars.values()}
+    for label, pat, k, guards in guarded:
+        gtext = " && ".join(("" if pol else "!") + render(c) for _, pol, c in guards)
+        rule = "E5.definition" if label == "general" else "E5.alias-branch"
+        key = "%s/%s[%s]" % (key0, label, gtext)
+        info = leaf_info(k)
+        if isinstance(info, Wrong):
+            ck.ob("E2.kernel-loop", key, False, "[%s] %s" % (inst, info), file, fn.line)
+            continue
+        if isinstance(info, Unknown):
+            ck.incomplete("E2.kernel-loop", "%s [%s]: %s" % (key, inst, info))
+            continue
+        try:
+            tgt_p, new_p = compose(info, pat)
+            gt, gs = compose(g, pat)
+        except Wrong as e:
+            ck.ob(rule, key, False, "[%s] %s" % (inst, e), file, info["line"])
+            continue
+        point = {sympy.Symbol(gd[1]): gd[2] for gd, pol, _ in guards if gd[0] in ("eq", "ne") and (gd[0] == "eq") == pol}
+        region = [gd for gd, pol, _ in guards if gd[0] == "region"]
+        want = gs.subs(point, simultaneous=True)
+        got = new_p.subs(point, simultaneous=True)
+        if tgt_p == gt and not is_nonzero(got - want):
+            ck.ob(rule, key, True, "[%s] under %s and `%s` the branch computes %s <- %s, as the general update does there" % (inst, label, gtext, tgt_p, sympy.expand(got)), file, info["line"])
+            continue
+        ratio = sympy.cancel(sympy.together((got - want) / want)) if want != 0 else None
+        if region and tgt_p == gt and ratio is not None and ratio.free_symbols <= scal_syms:
+            ck.incomplete(rule, "%s [%s]: under `%s` the branch computes %s instead of %s; the relative deviation %s depends on the tested scalar only - whether the tested range makes it negligible is a floating-point argument the rule does not model" % (
+                key, inst, gtext, sympy.expand(got), sympy.expand(want), ratio))
+            continue
+        ck.ob(rule, key, False,
+              "[%s] under %s the branch taken when `%s` computes %s <- %s, the element-wise definition gives %s there: the difference %s depends on the array contents, which the test of the scalar argument says nothing about%s" % (
+                  inst, label, gtext, tgt_p, sympy.expand(got), sympy.expand(want), sympy.expand(got - want),
+                  "" if point or not region else " (e.g. r = 0 or |x| >> |r|)"),
+              file, info["line"])
 
 
 # -------------------------------------------------------------------------------------------------
@@ -995,6 +1065,25 @@ def check_copy_site(ck, fn, call):
     elif arr and cls in BLOCKED_CLASSES and cnt["persp"] != arr[0]["persp"]:
         problems.append("array in Perspective::%s, count in Perspective::%s" % (arr[0]["persp"], cnt["persp"]))
     ck.ob("E1.extent", key, not problems, "; ".join(problems) if problems else "count matches the array", fn.file, call.get("l"))
+
+
+def check_pool_site(ck, fn, call):
+    """E1.extent for the library array routines (MemoryPool::set_memory / copy / convert: `count` elements of the pointee type)
+    inside the operations: value arrays and count in the same unit (scalars of the pod perspective vs blocks)"""
+    loc = Locals(fn)
+    key = "%s::%s/%s" % (short(fn.cls), fn.name, call["callee"].replace("FEAT::", ""))
+    u = array_units(fn, loc, call, BLOCKED_CLASSES)
+    if u is None:
+        return
+    ptr_units, cu, desc = u
+    if cu is None:
+        ck.incomplete("E1.extent", "%s: %s - the count is not an extent accessor or a constant (computed count: not modelled)" % (key, desc))
+        return
+    bad = cu != "const" and any(pu != cu for pu in ptr_units)
+    ck.ob("E1.extent", key, not bad,
+          ("%s: the array is addressed in %s but the count is in %s: only 1/BlockSize of the scalars are touched (or the routine overruns the array)" % (
+              desc, "scalars (Perspective::pod)" if "scalar" in ptr_units else "blocks", "blocks (native perspective)" if cu == "block" else "scalars")) if bad else desc,
+          fn.file, call.get("l"), trivial=(cu == "const"))
 
 
 def check_size_bookkeeping(ck, fn):
@@ -1457,10 +1546,10 @@ def run(tier):
     ck.rule("E2.kernel-loop", "for every aliasing pattern of its array parameters, the code a generic vector kernel executes under that pattern (whatever the spelling of its alias tests: if/else chain, early return, negated test) is one induction over [0,size) (blocked: times [0,n); index loop, reversed index loop or pointer cursors in lock step) whose single update addresses every array at the current element and writes the output array r resp. the accumulator. Broken for: any size>1 (stale/partial output), sizes that are not a multiple of a stride.", 66)
     ck.rule("E2.reduction", "dot/triple_dot/norm kernels start the accumulator from 0 and return it (Norm2: its square root). Broken for: every non-empty input (uninitialised or wrong start), empty vectors (must give 0).", 14)
     ck.rule("E2.index-kernel", "min/max(_abs) index kernels: the loop covers [0,size), the candidate compared is the one stored, the direction matches the name, the incumbent is seeded from element 0 (0 only for max-abs), blocked kernels reset the incumbent index per component. Broken for: all-negative vectors (seed 0), negative first element (min_abs seeded without abs), block vectors whose extreme components sit at different positions.", 14)
-    ck.rule("E5.definition", "the general branch of every kernel equals the documented element-wise definition (polynomial/rational normal form). Broken for: all non-aliased calls.", 26)
+    ck.rule("E5.definition", "the general branch of every kernel equals the documented element-wise definition (polynomial/rational normal form); a branch selected by a test of the scalar arguments (alpha == 0, |alpha| < tol, ...) computes what the definition gives under that test - a deviation that depends on the array contents is a violation, one that depends on the tested scalar only is a floating-point argument the rule does not decide. Broken for: all non-aliased calls; scalar values inside the tested range with r = 0 or |x| >> |r|.", 26)
     ck.rule("E5.alias-branch", "for every aliasing pattern of the array parameters (r==x, x==y, x==z, y==z, r==x==y, ...) the code executed under that pattern equals the general branch after substituting the aliasing. Broken for: calls that pass the same vector for two operands (never done by the tests).", 38)
     ck.rule("E1.operands", "Arch call sites of DenseVector/DenseVectorBlocked/SparseVector(Blocked): the array slots carry the receiver and every vector parameter exactly once (receiver in the output slot r), the scalar slot carries the scalar parameter. Broken for: any x != y, alpha != 1.", 65)
-    ck.rule("E1.extent", "the extent slot carries the number of entries of the arrays passed: size<P>() for dense, used_elements<P>() for sparse vectors, P = perspective of the arrays (pod arrays with pod extent), of the receiver or an operand asserted equal; set_vec/set_vec_inv copy counts likewise. Broken for: block size > 1 (only 1/BlockSize of the data processed or overrun), sparse vectors with fewer entries than their dimension.", 71)
+    ck.rule("E1.extent", "the extent slot carries the number of entries of the arrays passed: size<P>() for dense, used_elements<P>() for sparse vectors, P = perspective of the arrays (pod arrays with pod extent), of the receiver or an operand asserted equal; set_vec/set_vec_inv copy counts likewise; library array routines inside the operations (MemoryPool::set_memory/copy/convert) receive value arrays and count in the same unit (scalars vs blocks). Broken for: block size > 1 (only 1/BlockSize of the data processed or overrun), sparse vectors with fewer entries than their dimension, special-case paths (alpha == 0) of blocked vectors.", 71)
     ck.rule("E1.size-bookkeeping", "every extent a DenseVectorBlocked / SparseVectorBlocked constructor, convert, read_from or insertion records in _elements_size for its pod array is a pod count (size<Perspective::pod>(), blocks x BlockSize, or the very count the array was allocated with) - what Container::format/_copy_content iterate over; all sites of a class agree. Broken for: format()/copy() on range views or freshly built blocked vectors with BlockSize > 1 (only 1/BlockSize of the scalars touched).", 17)
     ck.rule("E7.sort-before-read", "the lazily sorting accessors of SparseVector / SparseVectorBlocked (elements<P>(), indices(), used_elements<P>(): every class, constness and perspective instantiation of a name that sorts in any sibling) return container state only on paths that passed `if(sorted()==0) sort()`. Broken for: vectors filled out of order or with repeated indices, read through the instantiation that skips the step (count before duplicates are merged -> min/max kernels read a stale tail).", 13)
     ck.rule("E7.no-resort-in-update", "the element setter operator()(index, value) of SparseVector / SparseVectorBlocked clears the sorted flag on every path and, until it returns, calls no member that (transitively) runs sort() - the function's own CAUTION comment. Broken for: the insertion that exceeds the allocated capacity when it updates an existing index or is not the largest index: the container stays flagged sorted with an unsorted / duplicated tail, so used_elements(), operator()(i) and min/max(_abs)_element read stale data.", 2)
@@ -1546,6 +1635,9 @@ def run(tier):
                 if fn.name in ("set_vec", "set_vec_inv"):
                     for c in fn.calls(callee_re=r"^FEAT::MemoryPool::copy$"):
                         check_copy_site(ck, fn, c)
+                elif fn.name in CURATED:
+                    for c in fn.calls(callee_re=r"^FEAT::MemoryPool::(copy|set_memory|convert)$"):
+                        check_pool_site(ck, fn, c)
                 continue
             # ---- meta vectors ------------------------------------------------------------------
             mk, rec = meta_kind(fn.cls)
